@@ -108,28 +108,25 @@ Proof.
 Qed.
 Print Assumptions C04_insertion_preserves_curve.
 
-(* [G] SURFACES, every admissible count, v-direction: every surface point is unchanged; the other direction's degree,
-   knot vector and size are untouched by construction of surf_after_v (= what insert_knot_surf builds) *)
-Theorem C04_insertion_preserves_surface_v : forall (g : surf (T:=R)) (v : R) (num s k dim : nat),
-  sortedR (s_Uv g) -> (length (s_Uv g) = s_sv g + s_pv g + 1)%nat -> (s <= s_pv g)%nat -> (num <= s_pv g - s)%nat ->
-  (s_pv g <= k)%nat -> (k < s_sv g)%nat ->
-  (knR (s_Uv g) k <= v < knR (s_Uv g) (k + 1))%R ->
-  (forall i, (k - s < i <= k)%nat -> knR (s_Uv g) i = v) ->
+(* [G] SURFACES, every admissible count, either direction: every surface point is unchanged; the other direction's
+   degree, knot vector and size are untouched by construction of surf_after_v / surf_after_u (= what insert_knot_surf
+   builds: v = row-wise, u = gather columns + flip_ctrlpts_u scatter) *)
+Theorem C04_insertion_preserves_surface : forall (g : surf (T:=R)) (t : R) (num s k dim : nat),
   (forall i, (i < s_sv g * s_su g)%nat -> length (getp (s_P g) i) = dim) ->
-  forall c tu tv, (c < dim)%nat -> surf_pt (surf_after_v g v num s k) c tu tv = surf_pt g c tu tv.
-Proof. intros g v num s k dim H1 H2 H3 H4 H5 H6 H7 H8 H9 c tu tv. apply (surf_insert_v_preserves g v num s k dim); assumption. Qed.
-Print Assumptions C04_insertion_preserves_surface_v.
-
-(* ... and u-direction (gather columns, flip_ctrlpts_u scatter) *)
-Theorem C04_insertion_preserves_surface_u : forall (g : surf (T:=R)) (u : R) (num s k dim : nat),
-  sortedR (s_Uu g) -> (length (s_Uu g) = s_su g + s_pu g + 1)%nat -> (s <= s_pu g)%nat -> (num <= s_pu g - s)%nat ->
-  (s_pu g <= k)%nat -> (k < s_su g)%nat ->
-  (knR (s_Uu g) k <= u < knR (s_Uu g) (k + 1))%R ->
-  (forall i, (k - s < i <= k)%nat -> knR (s_Uu g) i = u) ->
-  (forall i, (i < s_sv g * s_su g)%nat -> length (getp (s_P g) i) = dim) ->
-  forall c tu tv, (c < dim)%nat -> surf_pt (surf_after_u g u num s k) c tu tv = surf_pt g c tu tv.
-Proof. intros g u num s k dim H1 H2 H3 H4 H5 H6 H7 H8 H9 c tu tv. apply (surf_insert_u_preserves g u num s k dim); assumption. Qed.
-Print Assumptions C04_insertion_preserves_surface_u.
+  (sortedR (s_Uv g) -> (length (s_Uv g) = s_sv g + s_pv g + 1)%nat -> (s <= s_pv g)%nat -> (num <= s_pv g - s)%nat ->
+   (s_pv g <= k)%nat -> (k < s_sv g)%nat -> (knR (s_Uv g) k <= t < knR (s_Uv g) (k + 1))%R ->
+   (forall i, (k - s < i <= k)%nat -> knR (s_Uv g) i = t) ->
+   forall c tu tv, (c < dim)%nat -> surf_pt (surf_after_v g t num s k) c tu tv = surf_pt g c tu tv) /\
+  (sortedR (s_Uu g) -> (length (s_Uu g) = s_su g + s_pu g + 1)%nat -> (s <= s_pu g)%nat -> (num <= s_pu g - s)%nat ->
+   (s_pu g <= k)%nat -> (k < s_su g)%nat -> (knR (s_Uu g) k <= t < knR (s_Uu g) (k + 1))%R ->
+   (forall i, (k - s < i <= k)%nat -> knR (s_Uu g) i = t) ->
+   forall c tu tv, (c < dim)%nat -> surf_pt (surf_after_u g t num s k) c tu tv = surf_pt g c tu tv).
+Proof.
+  intros g t num s k dim H0. split; intros H1 H2 H3 H4 H5 H6 H7 H8 c tu tv.
+  - apply (surf_insert_v_preserves g t num s k dim); assumption.
+  - apply (surf_insert_u_preserves g t num s k dim); assumption.
+Qed.
+Print Assumptions C04_insertion_preserves_surface.
 
 (* surf_after_v / surf_after_u are literally the states operations.insert_knot produces (model), given the span and
    multiplicity it computes *)
@@ -186,32 +183,27 @@ Qed.
 Print Assumptions C04_volume_is_fibrewise.
 
 (* ... hence every volume point is unchanged, in each of the three directions, for every admissible count *)
-Theorem C04_insertion_preserves_volume_u : forall (g : vol (T:=R)) (t : R) (num s k dim : nat),
+Theorem C04_insertion_preserves_volume : forall (g : vol (T:=R)) (t : R) (num s k dim : nat),
   (forall i, (i < v_su g * v_sv g * v_sw g)%nat -> length (getp (v_P g) i) = dim) ->
-  sortedR (v_Uu g) -> (length (v_Uu g) = v_su g + v_pu g + 1)%nat -> (s <= v_pu g)%nat -> (num <= v_pu g - s)%nat ->
-  (v_pu g <= k)%nat -> (k < v_su g)%nat -> (knR (v_Uu g) k <= t < knR (v_Uu g) (k + 1))%R ->
-  (forall i, (k - s < i <= k)%nat -> knR (v_Uu g) i = t) ->
-  forall c tu tv tw, (c < dim)%nat -> vol_pt (vol_after_u g t num s k) c tu tv tw = vol_pt g c tu tv tw.
-Proof. intros g t num s k dim H0 H1 H2 H3 H4 H5 H6 H7 H8 c tu tv tw. apply (vol_insert_u_preserves g t num s k dim); assumption. Qed.
-Print Assumptions C04_insertion_preserves_volume_u.
-
-Theorem C04_insertion_preserves_volume_v : forall (g : vol (T:=R)) (t : R) (num s k dim : nat),
-  (forall i, (i < v_su g * v_sv g * v_sw g)%nat -> length (getp (v_P g) i) = dim) ->
-  sortedR (v_Uv g) -> (length (v_Uv g) = v_sv g + v_pv g + 1)%nat -> (s <= v_pv g)%nat -> (num <= v_pv g - s)%nat ->
-  (v_pv g <= k)%nat -> (k < v_sv g)%nat -> (knR (v_Uv g) k <= t < knR (v_Uv g) (k + 1))%R ->
-  (forall i, (k - s < i <= k)%nat -> knR (v_Uv g) i = t) ->
-  forall c tu tv tw, (c < dim)%nat -> vol_pt (vol_after_v g t num s k) c tu tv tw = vol_pt g c tu tv tw.
-Proof. intros g t num s k dim H0 H1 H2 H3 H4 H5 H6 H7 H8 c tu tv tw. apply (vol_insert_v_preserves g t num s k dim); assumption. Qed.
-Print Assumptions C04_insertion_preserves_volume_v.
-
-Theorem C04_insertion_preserves_volume_w : forall (g : vol (T:=R)) (t : R) (num s k dim : nat),
-  (forall i, (i < v_su g * v_sv g * v_sw g)%nat -> length (getp (v_P g) i) = dim) ->
-  sortedR (v_Uw g) -> (length (v_Uw g) = v_sw g + v_pw g + 1)%nat -> (s <= v_pw g)%nat -> (num <= v_pw g - s)%nat ->
-  (v_pw g <= k)%nat -> (k < v_sw g)%nat -> (knR (v_Uw g) k <= t < knR (v_Uw g) (k + 1))%R ->
-  (forall i, (k - s < i <= k)%nat -> knR (v_Uw g) i = t) ->
-  forall c tu tv tw, (c < dim)%nat -> vol_pt (vol_after_w g t num s k) c tu tv tw = vol_pt g c tu tv tw.
-Proof. intros g t num s k dim H0 H1 H2 H3 H4 H5 H6 H7 H8 c tu tv tw. apply (vol_insert_w_preserves g t num s k dim); assumption. Qed.
-Print Assumptions C04_insertion_preserves_volume_w.
+  (sortedR (v_Uu g) -> (length (v_Uu g) = v_su g + v_pu g + 1)%nat -> (s <= v_pu g)%nat -> (num <= v_pu g - s)%nat ->
+   (v_pu g <= k)%nat -> (k < v_su g)%nat -> (knR (v_Uu g) k <= t < knR (v_Uu g) (k + 1))%R ->
+   (forall i, (k - s < i <= k)%nat -> knR (v_Uu g) i = t) ->
+   forall c tu tv tw, (c < dim)%nat -> vol_pt (vol_after_u g t num s k) c tu tv tw = vol_pt g c tu tv tw) /\
+  (sortedR (v_Uv g) -> (length (v_Uv g) = v_sv g + v_pv g + 1)%nat -> (s <= v_pv g)%nat -> (num <= v_pv g - s)%nat ->
+   (v_pv g <= k)%nat -> (k < v_sv g)%nat -> (knR (v_Uv g) k <= t < knR (v_Uv g) (k + 1))%R ->
+   (forall i, (k - s < i <= k)%nat -> knR (v_Uv g) i = t) ->
+   forall c tu tv tw, (c < dim)%nat -> vol_pt (vol_after_v g t num s k) c tu tv tw = vol_pt g c tu tv tw) /\
+  (sortedR (v_Uw g) -> (length (v_Uw g) = v_sw g + v_pw g + 1)%nat -> (s <= v_pw g)%nat -> (num <= v_pw g - s)%nat ->
+   (v_pw g <= k)%nat -> (k < v_sw g)%nat -> (knR (v_Uw g) k <= t < knR (v_Uw g) (k + 1))%R ->
+   (forall i, (k - s < i <= k)%nat -> knR (v_Uw g) i = t) ->
+   forall c tu tv tw, (c < dim)%nat -> vol_pt (vol_after_w g t num s k) c tu tv tw = vol_pt g c tu tv tw).
+Proof.
+  intros g t num s k dim H0. split; [|split]; intros H1 H2 H3 H4 H5 H6 H7 H8 c tu tv tw.
+  - apply (vol_insert_u_preserves g t num s k dim); assumption.
+  - apply (vol_insert_v_preserves g t num s k dim); assumption.
+  - apply (vol_insert_w_preserves g t num s k dim); assumption.
+Qed.
+Print Assumptions C04_insertion_preserves_volume.
 
 (* [G] a single-direction insertion exceeding degree - multiplicity is rejected and the object is unchanged
    (operations.insert_knot with check_num; curve, surface u / v, volume u / v / w; and the curve wrapper) *)
